@@ -72,6 +72,13 @@ def _setup(ctx, kind, subregions=True, nvmax=3, **kw):
     rng = ctx.rng
     spec = gen.rand_meshspec(rng, n_max=7 if ctx.thorough else 6,
                              max_cells=800 if ctx.thorough else 400, **kw)
+    if rng.random() < 0.12 and not spec.int_corners and not spec.dyadic:
+        # a far-away mesh: 1e4..1e6 edge lengths from the origin (a film at z = 20 um cut
+        # into nm cells); coordinates still resolve 1e-6 of a cell there
+        mag = 10.0 ** rng.uniform(4, 6)
+        pmin = rng.choice([-1, 1], spec.nd) * mag * spec.cell * spec.n
+        spec = gen.MeshSpec(pmin, spec.cell, spec.n, spec.dims, spec.units, spec.flip)
+        ctx.event("far_mesh")
     boxes, regions = H.listed_subregions(rng, spec, kmax=3) if subregions else ({}, {})
     mesh = H.mesh_with_subregions(ctx, "C07", spec, regions)
     if mesh is None:
